@@ -134,6 +134,28 @@ fn view_row_picks_that_row() {
     assert!(vc as *const VC == unsafe { c.c.add(index) });
 }
 
+/// single-entity path: an immutable optional view of a PRESENT component consumes its column
+#[kani::proof]
+#[kani::unwind(5)]
+fn view_row_optional_present_then_later_component() {
+    let mut alloc = entity::Allocator::<V3>::new();
+    let (mut t, _) = full_table(&mut alloc);
+    let c = cols_full(&t);
+    let index: usize = kani::any();
+    kani::assume(index < 2);
+    {
+        let (va, (vb, (vc, _))) = unsafe { t.view_row_unchecked::<Views!(Option<&VA>, &VB, &mut VC), _>(index) };
+        assert!(va.unwrap() as *const VA == unsafe { c.a.add(index) });
+        assert!(vb as *const VB == unsafe { c.b.add(index) }, "C03: a view after a present Option<&A> reads its own column");
+        assert!(vc as *mut VC as *const VC == unsafe { c.c.add(index) }, "C03: and a write through &mut C lands in C");
+    }
+    {
+        let (va, (vc, _)) = unsafe { t.view_row_unchecked::<Views!(Option<&mut VA>, &VC), _>(index) };
+        assert!(va.unwrap() as *mut VA as *const VA == unsafe { c.a.add(index) });
+        assert!(vc as *const VC == unsafe { c.c.add(index) });
+    }
+}
+
 /// single-entity path with an optional view of an ABSENT component followed by later components:
 /// the absent optional must not consume a column
 #[kani::proof]
